@@ -7719,7 +7719,13 @@ class SFTPServer:
 
         """
 
-        os.rmdir(_to_local_path(self.map_path(path)))
+        path = self.map_path(path)
+
+        # The root of a chroot can't be removed, just like the real root
+        if self._chroot and path.rstrip(b'/') == self._chroot.rstrip(b'/'):
+            raise SFTPPermissionDenied('Cannot remove root directory')
+
+        os.rmdir(_to_local_path(path))
         return None
 
     def realpath(self, path: bytes) -> MaybeAwait[bytes]:
